@@ -54,7 +54,7 @@ def correspond(ctx):
         recs = [T.parse_rec(r) for r in o.split(";")]
         parsed.append(recs)
         coq_cases.append(T.case_to_coq(ty, ops, recs))
-    failing = coq_eval_failing("C09", T.HEADER, coq_cases, shard=600 if ctx["tier"] == "quick" else 2000)
+    failing = coq_eval_failing("C09", T.HEADER, coq_cases, shard=600 if ctx["tier"] == "quick" else 1000)
     oracle_failures, mismatches = [], []
     opcount = {"N": 0, "P": 0, "O": 0, "U": 0}
     outcount = {}
